@@ -186,6 +186,8 @@ var sliceDefs = []sliceDef{
 	{"i64.i.err", []string{"int64", "int", "error"}, 2, 1, ""},
 	{"unit.i", []string{"unit", "int"}, 1, 1, ""},
 	{"i.point/2", []string{"int", "point"}, 2, 2, ""},
+	{"point.i", []string{"point", "int"}, 2, 1, ""},
+	{"myInt.s", []string{"myInt", "string"}, 1, 1, ""},
 	// slices whose Prefix() exceeds NumOut(), obtainable only through constructors
 	// that inherit the input's prefix
 	{"map1(i.s/2)", []string{"int", "string"}, 3, 2, "map1"},
@@ -775,6 +777,185 @@ func invocationDescs() []Desc {
 	return ds
 }
 
+// ---------------------------------------------------------------- targeted families
+//
+// cube returns pool^k: every position varies independently over the pool, so it
+// contains in particular every tuple in which several positions share the same
+// wrong type (func(x, x) v, func(x, x) x, func(v, x) v, ...).
+func cube(pool []string, k int) [][]string {
+	out := [][]string{{}}
+	for i := 0; i < k; i++ {
+		var next [][]string
+		for _, t := range out {
+			for _, p := range pool {
+				next = append(next, append(append([]string{}, t...), p))
+			}
+		}
+		out = next
+	}
+	return out
+}
+
+func fnDesc(ctor, slice string, n int, ins []string, outs []string) Desc {
+	g := Sig{Ins: append([]string{}, ins...), Outs: append([]string{}, outs...)}
+	d := Desc{Ctor: ctor, Fn: &g, N: n}
+	if slice != "" {
+		d.Slices = []string{slice}
+	}
+	return d
+}
+
+// targetedDescs are complete in every tier: for a few representative input
+// slices per constructor, every parameter and result position of the documented
+// form ranges independently over a small type pool.
+func targetedDescs() []Desc {
+	var ds []Desc
+	have := func(n string) bool { _, ok := slices[n]; return ok }
+	base := l("int", "string", "int64", "myInt", "[]int")
+	// Reduce(Slice<k,v>, func(a, b) c): (a, b, c) over the pool, value types int, string, []int
+	for _, sl := range l("i.s", "s.i.i/2", "i.ints", "keyStr.i") {
+		if !have(sl) {
+			continue
+		}
+		for _, t := range cube(base, 3) {
+			ds = append(ds, fnDesc("reduce", sl, 0, t[:2], t[2:]))
+		}
+	}
+	// Fold(Slice<k,v2..vn>, func(acc, v2..vn) r): accumulator, value columns and result
+	for _, sl := range l("i.s", "i.ints", "keyStr.i") {
+		if !have(sl) {
+			continue
+		}
+		for _, t := range cube(base, 3) {
+			ds = append(ds, fnDesc("fold", sl, 0, t[:2], t[2:]))
+		}
+	}
+	if have("s.i.i") {
+		for _, t := range cube(l("int", "string", "int64", "myInt"), 4) {
+			ds = append(ds, fnDesc("fold", "s.i.i", 0, t[:3], t[3:]))
+		}
+	}
+	// Map / Filter / Flatmap: every column parameter over the pool (+ interface{}),
+	// then every result over the pool with the exact parameters
+	apool := l("int", "string", "int64", "myInt", "any")
+	type ap struct {
+		ctor string
+		out  []string
+		outs [][]string
+	}
+	var mapOuts, filterOuts, flatOuts [][]string
+	for k := 0; k <= 2; k++ {
+		mapOuts = append(mapOuts, cube(l("int", "string", "myInt"), k)...)
+		flatOuts = append(flatOuts, cube(l("[]int", "[]string", "int", "[][]int"), k)...)
+	}
+	filterOuts = append(cube(l("bool", "myBool", "int", "string", "any"), 1), cube(l("bool", "int"), 2)...)
+	filterOuts = append(filterOuts, l())
+	for _, a := range []ap{{"map", l("string"), mapOuts}, {"filter", l("bool"), filterOuts}, {"flatmap", l("[]int"), flatOuts}} {
+		for _, sl := range l("i", "i.s", "s.i.i") {
+			if !have(sl) {
+				continue
+			}
+			n := slices[sl].NumOut()
+			for _, t := range cube(apool, n) {
+				ds = append(ds, fnDesc(a.ctor, sl, 0, t, a.out))
+			}
+			var exact []string
+			for _, d := range sliceDefs {
+				if d.name == sl {
+					exact = d.cols
+				}
+			}
+			for _, o := range a.outs {
+				ds = append(ds, fnDesc(a.ctor, sl, 0, exact, o))
+			}
+		}
+	}
+	// Repartition(Slice<t1..tn>, func(nshard, t1..tn) r): shard count and result of
+	// defined / other integer types, columns over the pool
+	ipool := l("int", "myInt", "int64", "string")
+	for _, sl := range l("i", "i.s") {
+		if !have(sl) {
+			continue
+		}
+		n := slices[sl].NumOut()
+		for _, t := range cube(ipool, n+2) {
+			ds = append(ds, fnDesc("repartition", sl, 0, t[:n+1], t[n+1:]))
+		}
+	}
+	// WriterFunc(slice, func(shard, state, err, cols...) r)
+	for _, shard := range l("int", "myInt", "string") {
+		for _, state := range l("int", "*point") {
+			for _, e := range l("error", "*myErr", "any") {
+				for _, c := range l("[]int", "[]string", "int", "[][]int") {
+					for _, r := range l("error", "*myErr", "int") {
+						ds = append(ds, fnDesc("writerfunc", "i", 0, l(shard, state, e, c), l(r)))
+					}
+				}
+			}
+		}
+	}
+	if have("i.s") {
+		for _, shard := range l("int", "myInt") {
+			for _, e := range l("error", "any") {
+				for _, cs := range cube(l("[]int", "[]string", "int"), 2) {
+					for _, r := range l("error", "int") {
+						ds = append(ds, fnDesc("writerfunc", "i.s", 0, cat(l(shard, "unit", e), cs), l(r)))
+					}
+				}
+			}
+		}
+	}
+	// ReaderFunc(n, func(shard, state, cols...) (count, err))
+	for _, shard := range l("int", "myInt", "string") {
+		for _, state := range l("int", "*point") {
+			for _, c := range l("[]int", "[]string", "int", "[][]int") {
+				for _, cnt := range l("int", "myInt", "int64", "string", "error") {
+					for _, e := range l("error", "*myErr", "any", "int") {
+						ds = append(ds, fnDesc("readerfunc", "", 2, l(shard, state, c), l(cnt, e)))
+					}
+				}
+			}
+		}
+	}
+	for _, shard := range l("int", "myInt") {
+		for _, cs := range cube(l("[]int", "[]string", "int"), 2) {
+			for _, cnt := range l("int", "string") {
+				for _, e := range l("error", "int") {
+					ds = append(ds, fnDesc("readerfunc", "", 2, cat(l(shard, "unit"), cs), l(cnt, e)))
+				}
+			}
+		}
+	}
+	// Cogroup: every pair (and the triple) of inputs whose key columns are equal -
+	// hashable or not - plus each input with itself
+	keyOf := func(n string) string {
+		s := slices[n]
+		if !wellFormed(s) {
+			return "!" + n
+		}
+		ks := make([]string, s.Prefix())
+		for i := range ks {
+			ks[i] = s.Out(i).String()
+		}
+		return strings.Join(ks, ",")
+	}
+	var names []string
+	for _, d := range sliceDefs {
+		if have(d.name) {
+			names = append(names, d.name)
+		}
+	}
+	for _, a := range names {
+		for _, b := range names {
+			if keyOf(a) == keyOf(b) {
+				ds = append(ds, Desc{Ctor: "cogroup", Slices: []string{a, b}})
+				ds = append(ds, Desc{Ctor: "cogroup", Slices: []string{a, b, a}})
+			}
+		}
+	}
+	return ds
+}
+
 func allDescs() (must, pool []Desc) {
 	var names []string
 	for _, d := range sliceDefs {
@@ -829,6 +1010,7 @@ func allDescs() (must, pool []Desc) {
 	}
 	must = append(must, Desc{Ctor: "cogroup"})
 	must = append(must, invocationDescs()...)
+	must = append(must, targetedDescs()...)
 	triples := [][]string{{"i", "i.s", "i.ppoint"}, {"i.s/2", "i.s/2", "i.s/2"}, {"s.i.i", "s.i.i/2", "s.i.i"},
 		{"i", "i", "f.i"}, {"i", "i.ints", "i.s"}, {"s.i.i/2", "s.i.i/2", "s.i.i/3"}, {"i.s", "scan(i)", "i"},
 		{"i", "map1(i.s/2)", "i"}, {"keyStr.i", "keyStr.i", "keyStr.i"}, {"i.s", "i", "myInt.i"}}
@@ -922,7 +1104,7 @@ func main() {
 					keep[i] = true
 				}
 			}
-			n := 1500 * opts.Scale
+			n := 800 * opts.Scale
 			if n > len(rejected) {
 				n = len(rejected)
 			}
